@@ -55,6 +55,9 @@ Fixpoint avJ (a : av) : J :=
   | ADict d => JL (JS "d" :: (fix go (d : list (string * av)) := match d with [] => [] | (k, v) :: d' => JL [JS k; avJ v] :: go d' end) d)
   end.
 Definition callJ (c : call av) : J := JL [JL (map avJ (fst c)); JL (map (fun kv => JL [JS (fst kv); avJ (snd kv)]) (snd c))].
-Definition run_cache (cs : list (call av)) : J :=
-  let st := crun (call_key true) lz_eqb (fun n _ => Z.of_nat (S n)) cs in
-  JL [JL (map JZ (rets st)); JL (map callJ (trace st))].
+(* the n-th evaluation returns the n-th value of a given pool (None, 0, '', [], False, NaN, ...): a stored None
+   must still count as present *)
+Definition run_cache (x : list av * list (call av)) : J :=
+  let '(pool, cs) := x in
+  let st := crun (call_key true) lz_eqb (fun n _ => avJ (nth n pool ANone)) cs in
+  JL [JL (rets st); JL (map callJ (trace st))].
